@@ -63,7 +63,7 @@ def function_level(chk, rng, binp):
         lines.append("eventburst 2500 " + hx(t)); mlines.append(None); meta.append(("eventburst", t))
         lines.append("evdrain"); mlines.append(None); meta.append(("burstflush", None))
     # two writers at the moment the queue has exactly one free slot
-    lines.append("eventrace %d" % (40 if n <= 400 else 400)); mlines.append(None); meta.append(("eventrace", "two writers, one free slot"))
+    lines.append("eventrace %d" % (40 if n <= 400 else 400)); mlines.append(None); meta.append(("eventrace", "eight writers, one free slot"))
     lines.append("evdrain"); mlines.append(None); meta.append(("burstflush", None))
     # very short bodies, and hosts whose first data frame is one byte (or another odd prefix) long: only "no panic" is compared
     ct = "application/json; charset=utf-16"
